@@ -118,6 +118,9 @@ pub const DECLS: &[(&str, &str)] = &[
   ("object-with-accessors-and-spread", "const partO@N = { z: 1 };\nexport const ow@N = { get g(): number { return 1; }, set s(v: number) {}, ...partO@N, [\"k\"]: 2 };\n"),
   ("top-level-await-initialiser", "export const aw@N = await Promise.resolve(1);\nexport const oc@N = globalThis?.name?.length;\n"),
   ("generator-and-async-methods", "export class GM@N { *gen(): Generator<@R> {} async am(): Promise<@R> { return null as any; } async *ag(): AsyncGenerator<number> {} }\n"),
+  // a function that shares its name with a type-only declaration written before it
+  ("merged-interface-then-function", "export interface Pt@N { x: @R }\nexport function Pt@N(x: @R, y: number = 1): Pt@N { return { x }; }\n"),
+  ("merged-type-alias-then-function", "interface Opt@N { o: @R }\nexport type Mk@N = { v: number };\nexport function Mk@N(o: Opt@N): Mk@N { return { v: 1 }; }\n"),
   ("class-members", "export class C@N {\n  p: @R = null as any;\n  static s: number = 1;\n  readonly ro?: @R;\n  constructor(public q: @R, private r: number, protected t?: @R) {}\n  m(a: @R, b: number = 1, c?: @R, ...rest: @R[]): @R { return a; }\n  get g(): @R { return this.p; }\n  set g(v: @R) {}\n  private priv(x: number): void {}\n  private pp: number = 1;\n  #hidden: number = 1;\n  #hm(): void {}\n  protected prot(): @R { return this.p; }\n  static sm(): void {}\n  [key: string]: any;\n}\n"),
   ("class-extends-private", "class Base@N { b: @R = null as any; bm(): void {} }\nexport class C@N extends Base@N { constructor() { super(); } x: number = 1; }\n"),
   ("class-implements", "export class C@N implements PubI@N { a: @R = null as any; }\nexport interface PubI@N { a: @R }\n"),
